@@ -9,24 +9,24 @@ SX = "sx: exhaustive choice-tree exploration (stateless DFS with replay) of oper
 LX = "lx: loom 0.5.6 exploring thread interleavings of the real waker list / queue / poll loop"
 
 P = {
- "C01": ("LX+SX", "model checking: loom explores every interleaving (preemption bound 2 quick / 3 thorough) of 1-3 waker threads against a small executor that sleeps until the most recent task waker is invoked - a lost wake-up is a reported deadlock; SX explores all push/poll/complete/wake/stale-wake/new-waker histories (depth 5 quick / 7 thorough, plus prefilled states with 62..130 children and 2-3 groups) with the invariant 'last poll Pending and a pushed-or-woken child un-polled => that poll's task waker was invoked' evaluated after every operation",
+ "C01": ("LX+SX", "model checking: loom explores every interleaving (preemption bound 2 quick / 3 thorough; no bound at all for the scenarios on which loom terminates without one) of 1-3 waker threads against a small executor that sleeps until the most recent task waker is invoked - a lost wake-up is a reported deadlock; SX explores all push/poll/complete/wake/stale-wake/new-waker histories (depth 6 quick / 8 thorough, plus prefilled states with 62..130 children and 2-3 groups) with the invariant 'last poll Pending and a pushed-or-woken child un-polled => that poll's task waker was invoked' evaluated after every operation",
          "bounded: <=3 waker threads, preemption bound, history depth, deviation budget; spin's lock replaced by loom's mutex in the loom build", "§4, §6/C01"),
- "C02": ("SX", "model checking: all push/push_front/poll/complete/wake/stale-wake histories up to depth 6 (quick) / 8 (thorough) on 18 small shapes of the four collections plus populated multi-group states, against a multiset/deque reference; every prefix is also drained to the end and must yield exactly the accepted futures", "bounded depth/deviations/configurations as listed in the evidence", "§3, §6/C02"),
- "C03": ("LX+SX", "model checking: loom checks, per schedule, that every access to the shared waker block happens-before its release (canary cell in the header, hook H1) and that the block is released exactly once while wakers are cloned/woken/dropped on other threads against poll/drop of the collection; SX explores all orders in which the collection, stored wakers and cloned wakers die (depth 6/8) with allocation probes, deferred+poisoned frees, and sweeps every (capacity, slot) layout up to 64 (quick) / 512 (thorough); the thorough tier also enumerates a small slice (6725 executions) under Miri as per-execution oracle", "bounded: loom thread/preemption bounds; reads of released memory are only seen at waker-vtable entries (writes are seen via poisoning)", "§4, §6/C03"),
- "C04": ("SX", "model checking: all push_back/push_front/poll/complete histories (depth 5/7) x 11 start values of the position counters adjacent to 0, the sign bit and usize::MAX against a VecDeque reference; ordered adapters with all upstream answers; join_all/try_join_all with all completion orders of up to 4 (quick) / 5 (thorough) inputs", "bounded depth; counter seeds are the 11 boundary-adjacent values, set through hook H3", "§6/C04"),
- "C05": ("SX", "model checking: histories that retain and invoke stale wakers, recycle slots and let children wake themselves in the poll in which they complete (depth 6/8); the scripted child flags any poll after completion and every poll call checks that children finished during it are already dropped", "bounded depth/configurations", "§6/C05"),
- "C06": ("SX", "model checking with every prefix as a drop point: after each explored prefix the subject is dropped, then retained wakers, then caller-held outputs; every child and every output token must have been dropped exactly once; thorough tier adds a Miri-interpreted slice", "bounded depth (5/7) and configurations; panicking children are out of scope", "§6/C06"),
+ "C02": ("SX", "model checking: all push/push_front/poll/complete/wake/stale-wake histories up to depth 7 (quick) / 8 (thorough) on 18 small shapes of the four collections plus populated multi-group states, against a multiset/deque reference; every prefix is also drained to the end and must yield exactly the accepted futures", "bounded depth/deviations/configurations as listed in the evidence", "§3, §6/C02"),
+ "C03": ("LX+SX", "model checking: loom checks, per schedule, that every access to the shared waker block happens-before its release (canary cell in the header, hook H1) and that the block is released exactly once while wakers are cloned/woken/dropped on other threads against poll/drop of the collection; SX explores all orders in which the collection, stored wakers and cloned wakers die (depth 6/7) with allocation probes, deferred+poisoned frees, and sweeps every (capacity, slot) layout up to 64 (quick) / 512 (thorough); the thorough tier also enumerates a small slice (6725 executions) under Miri as per-execution oracle", "bounded: loom thread/preemption bounds; reads of released memory are only seen at waker-vtable entries (writes are seen via poisoning)", "§4, §6/C03"),
+ "C04": ("SX", "model checking: all push_back/push_front/poll/complete histories (depth 6/7) x 11 start values of the position counters adjacent to 0, the sign bit and usize::MAX against a VecDeque reference; ordered adapters with all upstream answers; join_all/try_join_all with all completion orders of up to 4 (quick) / 5 (thorough) inputs", "bounded depth; counter seeds are the 11 boundary-adjacent values, set through hook H3", "§6/C04"),
+ "C05": ("SX", "model checking: histories that retain and invoke stale wakers, recycle slots and let children wake themselves in the poll in which they complete (depth 7/9); the scripted child flags any poll after completion and every poll call checks that children finished during it are already dropped", "bounded depth/configurations", "§6/C05"),
+ "C06": ("SX", "model checking with every prefix as a drop point: after each explored prefix the subject is dropped, then retained wakers, then caller-held outputs; every child and every output token must have been dropped exactly once; thorough tier adds a Miri-interpreted slice", "bounded depth (6/8) and configurations; children that panic in poll or in their destructor are part of the alphabet", "§6/C06"),
  "C07": ("SX", "model checking: join_all/try_join_all with every vector of up to 3 (quick) / 4 (thorough) inputs over {ready, late} x {Ok, Err}, all completion orders, polls continuing after the first Ready; fresh memory is 0xA5-filled so an unwritten slot is recognised deterministically; thorough tier adds a Miri-interpreted slice in which memory stays uninitialised", "an uninitialised element is recognised by its magic word", "§6/C07"),
- "C08": ("SX", "model checking: histories with a Move operation (the collection value is moved to a new heap location between polls), group creation/discard/rotation and slot reuse; each !Unpin child compares its address at every poll and at drop with that of its first poll", "MergeUnbounded requires Unpin sources, its sources are boxed; bounded depth", "§6/C08"),
- "C09": ("SX", "model checking: every upstream answer (item ready/late, Pending, end, error) is a choice point, with all completion orders, limits 1..3; oracles: unfinished futures <= n at all times, and at every Pending return n items in flight or upstream ended or upstream answered Pending in that call", "bounded depth (6/8) and deviation budget (2/3)", "§6/C09"),
+ "C08": ("SX", "model checking: histories with a Move operation (the collection value is moved to a new heap location between polls), group creation/discard/rotation and slot reuse; each !Unpin child compares its address at every poll and at drop with that of its first poll", "bounded depth; MergeUnbounded requires Unpin sources: it is run both over boxed !Unpin sources and over Unpin sources that live in its slots and watch their own address", "§6/C08"),
+ "C09": ("SX", "model checking: every upstream answer (item ready/late, Pending, end, error) is a choice point, with all completion orders, limits 1..3; oracles: unfinished futures <= n at all times, and at every Pending return n items in flight or upstream ended or upstream answered Pending in that call", "bounded depth (8/9) and deviation budget (3/4)", "§6/C09"),
  "C10": ("SX", "model checking: same exploration as C09 plus limit 0 of for_each_concurrent; oracles: upstream never polled after None, items/errors forwarded exactly once, end exactly when exhausted and idle, closure called once per item", "bounded as C09; limit 0 of for_each_concurrent is a known finding", "§6/C10"),
- "C11": ("SX", "model checking: merge sources follow scripts over {item, pending, end} incl. an always-ready source; pushes during consumption; MergeUnbounded prefilled across the 32/64/128 group boundaries; oracles: per-source sequence numbers, union at the end, None iff all ended, Pending only while some source is pending or the task was woken", "bounded depth (6/8)", "§6/C11"),
+ "C11": ("SX", "model checking: merge sources follow scripts over {item, pending, end} incl. an always-ready source; pushes during consumption; MergeUnbounded prefilled across the 32/64/128 group boundaries; oracles: per-source sequence numbers, union at the end, None iff all ended, Pending only while some source is pending or the task was woken", "bounded depth (7/11)", "§6/C11"),
  "C12": ("SX", "model checking: redundant and stale wakes in all positions; oracle per child: polls <= 1 + number of inter-poll intervals containing a wake of its slot (+ items), and the global inequality of the property", "bounded depth", "§6/C12"),
- "C13": ("SX", "model checking over populations: always-ready merge sources / self-waking / ready futures of sizes around every group boundary and the per-poll budget x every group's first/last slot for the victim x all poll/unleash/wake prefixes (depth 5/6); oracle: a woken child is polled within 4*held+8 polls, a single poll performs <= 512*(held+1) child polls and returns", "population sizes up to 130; 'bounded' is checked against generous linear bounds", "§6/C13"),
- "C14": ("SX", "model checking: from every explored state in which all held children are pending, poll up to held+2 times: one Pending must come without the task waker having been invoked; a task-waker invocation outside a poll must be nested in a child-waker invocation", "bounded depth (5/7)", "§6/C14"),
- "C15": ("SX", "model checking: capacities 0..4, refused try_push and panicking push (exploration continues on the same object), against a counting model of len/is_empty/size_hint/is_terminated/capacity", "bounded depth (6/8)", "§6/C15"),
- "C16": ("SX", "model checking: ordered adapters, n 1..3, upstream lengths n+1, n+4 and unbounded, all completion orders incl. the stalled head; oracle after every operation: pulled - yielded <= n", "bounded depth (6/9)", "§6/C16"),
- "C17": ("SX", "model checking: size_hint recorded at every explored state and after each drain step, compared with the number of items actually yielded afterwards; three honest upstream hint shapes", "bounded depth (5/7)", "§6/C17"),
+ "C13": ("SX", "model checking over populations: always-ready merge sources / self-waking / ready futures of sizes around every group boundary and the per-poll budget x every group's first/last slot for the victim x all poll/unleash/wake prefixes (depth 5/8); oracle: a woken child is polled within 4*held+8 polls, a single poll performs <= 512*(held+1) child polls and returns", "population sizes up to 130; 'bounded' is checked against generous linear bounds", "§6/C13"),
+ "C14": ("SX", "model checking: from every explored state in which all held children are pending, poll up to held+2 times: one Pending must come without the task waker having been invoked; a task-waker invocation outside a poll must be nested in a child-waker invocation", "bounded depth (6/8)", "§6/C14"),
+ "C15": ("SX", "model checking: capacities 0..4, refused try_push and panicking push (exploration continues on the same object), against a counting model of len/is_empty/size_hint/is_terminated/capacity", "bounded depth (7/8)", "§6/C15"),
+ "C16": ("SX", "model checking: ordered adapters, n 1..3, upstream lengths n+1, n+4 and unbounded, all completion orders incl. the stalled head; oracle after every operation: pulled - yielded <= n", "bounded depth (8/9)", "§6/C16"),
+ "C17": ("SX", "model checking: size_hint recorded at every explored state and after each drain step, compared with the number of items actually yielded afterwards; three honest upstream hint shapes", "bounded depth (6/8)", "§6/C17"),
  "C18": ("SX", "model checking: tracking global allocator counts allocations while control is inside the crate; bounded types: zero in every explored history incl. waker clone/drop; unbounded types: all fill/drain words up to length 4 (quick) / 5 (thorough) repeated 16/64 times against 4*ceil(log2(peak+1))+16", "allocator interposition is trusted", "§6/C18"),
 }
 
